@@ -488,7 +488,9 @@ class BaseModel(object):
 
     def _set_persisted(self, force=False):
         # ensure we don't modify to any values not affected by the last save/update
-        for v in [v for v in self._values.values() if v.changed or force]:
+        # a container emptied in place is not "changed" (its value is null) but it was deleted by
+        # the save/update that just ran, so its previous value must be forgotten as well
+        for v in [v for v in self._values.values() if v.changed or v.deleted or force]:
             v.reset_previous_value()
             v.explicit = False
         self._is_persisted = True
